@@ -73,6 +73,10 @@ func (c *fctx) call(t *ast.CallExpr) string {
 		return c.userCall(ci, t, c.userArgs(ci, t))
 	}
 	full := f.FullName()
+	if f.Pkg() != nil && strings.HasSuffix(f.Pkg().Path(), "/lib/server/proto") && strings.HasPrefix(f.Name(), "Get") && len(t.Args) == 0 {
+		// protobuf getter: the field (the nil-receiver default is the zero value; configurations are never nil)
+		return c.expr(t.Fun.(*ast.SelectorExpr).X) + "." + leanIdent(strings.TrimPrefix(f.Name(), "Get"))
+	}
 	arg := func(i int) string { return c.expr(t.Args[i]) }
 	recv := func() string { return c.expr(t.Fun.(*ast.SelectorExpr).X) }
 	switch full {
@@ -96,6 +100,10 @@ func (c *fctx) call(t *ast.CallExpr) string {
 		return c.sprintf(t)
 	case "(time.Duration).Seconds":
 		bad("time.Duration.Seconds outside uint32(d.Seconds()) at %s", c.site(t.Pos()))
+	case "net.ParseIP": // uninterpreted: the standard library's parser (trusted; the harness parses with the same function)
+		return "(Go.parseIP " + arg(0) + ")"
+	case "strings.Split":
+		return "(Go.stringsSplit " + arg(0) + " " + arg(1) + ")"
 	case "(net.IP).DefaultMask":
 		return "(Go.ipDefaultMask " + recv() + ")"
 	case "math/rand.Perm":
